@@ -14,6 +14,7 @@ model's heap-use-after-free, `Fault.oob`).
 | `baseCtorList`        | `intrusive/base_impl.hpp`  `base<T>::base(list_type&)`                   |
 | `baseCtorMove`        | `intrusive/base_impl.hpp`  `base<T>::base(base&&)`                       |
 | `baseAssignMove`      | `intrusive/base_impl.hpp`  `base<T>::operator=(base&&)`                  |
+| `detach`, `attach`   | the statement groups shared by the move operations, the destructor and `unlink` |
 | `baseDtor`            | `intrusive/base_impl.hpp`  `base<T>::~base()`                            |
 | `baseUnlink`          | `intrusive/base_impl.hpp`  `base<T>::unlink()`                           |
 | `listEmpty`           | `intrusive/list_impl.hpp`  `empty()` = `begin() == end()`                |
@@ -73,11 +74,19 @@ def baseCtorList (σ : Store) (self h : Node) : M Store := do
   let σ ← wrNext σ p self
   wrPrev σ h self                 -- _list.head_.prev_ = this;
 
-/-- `base(base &&_other) : prev_{_other.prev_}, next_{_other.next_}` -/
-def baseCtorMove (σ : Store) (self other : Node) : M Store := do
-  let p ← rdPrev σ other
-  let n ← rdNext σ other
-  let σ := σ.alloc self p n
+/-- the two statements `next_->prev_ = prev_; prev_->next_ = next_;` with which `operator=(base&&)`,
+`~base()` and `unlink()` all begin -/
+def detach (σ : Store) (self : Node) : M Store := do
+  let n ← rdNext σ self           -- next_->prev_ = prev_;
+  let p ← rdPrev σ self
+  let σ ← wrPrev σ n p
+  let p ← rdPrev σ self           -- prev_->next_ = next_;
+  let n ← rdNext σ self
+  wrNext σ p n
+
+/-- the four statements `prev_->next_ = this; next_->prev_ = this; _other.prev_ = &_other;
+_other.next_ = &_other;` with which `base(base&&)` and `operator=(base&&)` both end -/
+def attach (σ : Store) (self other : Node) : M Store := do
   let p ← rdPrev σ self           -- prev_->next_ = this;
   let σ ← wrNext σ p self
   let n ← rdNext σ self           -- next_->prev_ = this;
@@ -85,44 +94,31 @@ def baseCtorMove (σ : Store) (self other : Node) : M Store := do
   let σ ← wrPrev σ other other    -- _other.prev_ = &_other;
   wrNext σ other other            -- _other.next_ = &_other;
 
-/-- `base::operator=(base &&_other)` -/
+/-- `base(base &&_other) : prev_{_other.prev_}, next_{_other.next_} { …attach… }` -/
+def baseCtorMove (σ : Store) (self other : Node) : M Store := do
+  let p ← rdPrev σ other
+  let n ← rdNext σ other
+  let σ := σ.alloc self p n
+  attach σ self other
+
+/-- `base::operator=(base &&_other)`: self test, detach, `prev_ = _other.prev_; next_ = _other.next_;`, attach -/
 def baseAssignMove (σ : Store) (self other : Node) : M Store :=
   if other = self then .ok σ else do
-    let n ← rdNext σ self         -- next_->prev_ = prev_;
-    let p ← rdPrev σ self
-    let σ ← wrPrev σ n p
-    let p ← rdPrev σ self         -- prev_->next_ = next_;
-    let n ← rdNext σ self
-    let σ ← wrNext σ p n
+    let σ ← detach σ self
     let op ← rdPrev σ other       -- prev_ = _other.prev_;
     let σ ← wrPrev σ self op
     let on ← rdNext σ other       -- next_ = _other.next_;
     let σ ← wrNext σ self on
-    let p ← rdPrev σ self         -- prev_->next_ = this;
-    let σ ← wrNext σ p self
-    let n ← rdNext σ self         -- next_->prev_ = this;
-    let σ ← wrPrev σ n self
-    let σ ← wrPrev σ other other  -- _other.prev_ = &_other;
-    wrNext σ other other          -- _other.next_ = &_other;
+    attach σ self other
 
-/-- `~base()` followed by the release of the storage -/
+/-- `~base() { …detach… }` followed by the release of the storage -/
 def baseDtor (σ : Store) (self : Node) : M Store := do
-  let n ← rdNext σ self           -- next_->prev_ = prev_;
-  let p ← rdPrev σ self
-  let σ ← wrPrev σ n p
-  let p ← rdPrev σ self           -- prev_->next_ = next_;
-  let n ← rdNext σ self
-  let σ ← wrNext σ p n
+  let σ ← detach σ self
   .ok (σ.free self)
 
-/-- `unlink()` -/
+/-- `unlink() { …detach…; next_ = this; prev_ = this; }` -/
 def baseUnlink (σ : Store) (self : Node) : M Store := do
-  let n ← rdNext σ self           -- next_->prev_ = prev_;
-  let p ← rdPrev σ self
-  let σ ← wrPrev σ n p
-  let p ← rdPrev σ self           -- prev_->next_ = next_;
-  let n ← rdNext σ self
-  let σ ← wrNext σ p n
+  let σ ← detach σ self
   let σ ← wrNext σ self self      -- next_ = this;
   wrPrev σ self self              -- prev_ = this;
 
